@@ -384,6 +384,8 @@ _BUILTIN_EXC = {
     "ProgrammingError": ["ProgrammingError", "DatabaseError", "Error", "Exception", "BaseException"],
     "InterfaceError": ["InterfaceError", "Error", "Exception", "BaseException"],
     "ImportError": ["ImportError", "Exception", "BaseException"],
+    "NameError": ["NameError", "Exception", "BaseException"],
+    "UnboundLocalError": ["UnboundLocalError", "NameError", "Exception", "BaseException"],
 }
 
 
@@ -1484,7 +1486,56 @@ class Interp:
         ci = env.get("__class__ci")
         if ci is not None and n in ci.assigns:
             return self.class_const(ci, ci.assigns[n])
+        if self.stack and n in self._function_locals(self.stack[-1], node):
+            # a local of the running function that no statement on this path has bound: Python raises UnboundLocalError here
+            raise self.fault("UnboundLocalError", node, f"cannot access local variable '{n}' where it is not associated with a value")
         return self.global_value(env["__module__"], n, node)
+
+    _LOCALS_CACHE = {}
+
+    def _function_locals(self, fi, at):
+        """names the compiler treats as locals of the function body that contains `at` directly (not inside a nested def / lambda /
+        comprehension, whose names live in their own scope): assignment, augmented assignment, for / with / except targets, imports"""
+        fnode = getattr(fi, "node", None)
+        if not isinstance(fnode, (ast.FunctionDef, ast.AsyncFunctionDef)):
+            return ()
+        key = id(fnode)
+        info = Interp._LOCALS_CACHE.get(key)
+        if info is None:
+            names, inner_spans, declared = set(), [], set()
+
+            def walk(n_, top):
+                for ch in ast.iter_child_nodes(n_):
+                    if isinstance(ch, (ast.FunctionDef, ast.AsyncFunctionDef, ast.Lambda, ast.ListComp, ast.SetComp, ast.DictComp, ast.GeneratorExp, ast.ClassDef)):
+                        if isinstance(ch, (ast.FunctionDef, ast.AsyncFunctionDef, ast.ClassDef)):
+                            names.add(ch.name)
+                        inner_spans.append((ch.lineno, getattr(ch, "end_lineno", ch.lineno), ch.col_offset, getattr(ch, "end_col_offset", 10**6)))
+                        continue
+                    if isinstance(ch, (ast.Global, ast.Nonlocal)):
+                        declared.update(ch.names)
+                    if isinstance(ch, ast.Name) and isinstance(ch.ctx, (ast.Store, ast.Del)):
+                        names.add(ch.id)
+                    if isinstance(ch, ast.ExceptHandler) and ch.name:
+                        names.add(ch.name)
+                    if isinstance(ch, (ast.Import, ast.ImportFrom)):
+                        for a_ in ch.names:
+                            names.add((a_.asname or a_.name).split(".")[0])
+                    walk(ch, False)
+            for st in fnode.body:
+                walk(ast.Module(body=[st], type_ignores=[]), True)
+            args = fnode.args
+            params = {a_.arg for a_ in args.posonlyargs + args.args + args.kwonlyargs} | ({args.vararg.arg} if args.vararg else set()) | \
+                ({args.kwarg.arg} if args.kwarg else set())
+            info = (names - declared - params, inner_spans)
+            Interp._LOCALS_CACHE[key] = info
+        names, inner_spans = info
+        ln, col = getattr(at, "lineno", None), getattr(at, "col_offset", 0)
+        if ln is None or not (fnode.lineno <= ln <= getattr(fnode, "end_lineno", ln)):
+            return ()
+        for (a_, b_, ca, cb) in inner_spans:
+            if (a_ < ln < b_) or (a_ == ln == b_ and ca <= col < cb) or (a_ == ln != b_ and col >= ca) or (b_ == ln != a_ and col < cb):
+                return ()       # inside a nested scope: its own rules apply
+        return names
 
     def e_Attribute(self, node, env):
         return self.getattr_(self.eval(node.value, env), node.attr, node)
